@@ -21,7 +21,7 @@ open Martian.FormatExp
 abbrev AllOK (ts : List Tok) : Prop := ts.all tokOK = true
 
 theorem allOK_cons {t : Tok} {ts : List Tok} (h : AllOK (t :: ts)) : tokOK t = true ∧ AllOK ts := by
-  simp only [List.all_cons, Bool.and_eq_true] at h; exact h
+  simp only [AllOK, List.all_cons, Bool.and_eq_true] at h; exact h
 
 theorem allOK_tail {t : Tok} {ts : List Tok} (h : AllOK (t :: ts)) : AllOK ts := (allOK_cons h).2
 
@@ -35,7 +35,7 @@ theorem allOK_drop1 {ts : List Tok} (h : AllOK ts) : AllOK (ts.drop 1) := by
 theorem pArr_range : ∀ (n : Nat) (ts : List Tok), ts.length ≤ n → AllOK ts → AllOK (pArr ts).2
   | 0, ts, hl, h => by
     cases ts with
-    | nil => simpa [pArr] using h
+    | nil => simp [pArr]
     | cons _ _ => simp at hl
   | n + 1, ts, hl, h => by
     unfold pArr
